@@ -1,3 +1,590 @@
+import Cello.Hash
+import CelloGen.Hash
 import Driver.Common
-/- driver for engine `hash` — stub, replaced when the engine is built -/
-def main (_args : List String) : IO Unit := IO.println "O not-implemented"
+/- driver for engine `hash` (C10): interprets the op files of harness/h_hash.c on the model `Cello.Hash` and prints the same
+   `O` lines (canonical dump of the value — for a Table the slot array — and the hash). -/
+open Cello.Hash
+
+namespace HashDrv
+
+def hexDigit (c : Char) : Option Nat :=
+  if '0' ≤ c ∧ c ≤ '9' then some (c.toNat - '0'.toNat)
+  else if 'a' ≤ c ∧ c ≤ 'f' then some (c.toNat - 'a'.toNat + 10)
+  else if 'A' ≤ c ∧ c ≤ 'F' then some (c.toNat - 'A'.toNat + 10)
+  else none
+
+def parseHexList : List Char → Option Bytes
+  | [] => some []
+  | [_] => none
+  | a :: b :: rest => do
+    let x ← hexDigit a
+    let y ← hexDigit b
+    let r ← parseHexList rest
+    pure (UInt8.ofNat (x * 16 + y) :: r)
+
+def parseHex (s : String) : Option Bytes := parseHexList s.toList
+
+def hexChar (n : Nat) : Char := if n < 10 then Char.ofNat ('0'.toNat + n) else Char.ofNat ('a'.toNat + n - 10)
+def hexByte (b : UInt8) : String := String.ofList [hexChar (b.toNat / 16), hexChar (b.toNat % 16)]
+def hexBytes (bs : Bytes) : String := String.join (bs.map hexByte)
+def hex16 (v : UInt64) : String :=
+  String.ofList ((List.range 16).map fun i => hexChar ((v.toNat / 16 ^ (15 - i)) % 16))
+
+def parseId (s : String) : Option Nat :=
+  if s.isEmpty || s.length > 5 || !s.all Char.isDigit then none
+  else match s.toNat? with
+    | some n => if n < 4096 then some n else none
+    | none => none
+
+def parseI64 (s : String) : Option Int64 :=
+  match s.toInt? with
+  | some v => if -(2 : Int) ^ 63 ≤ v ∧ v < (2 : Int) ^ 63 then some (Int64.ofInt v) else none
+  | none => none
+
+def builtinNames : List String :=
+  ["Int", "Float", "String", "Array", "List", "Table", "Tree", "Tuple", "Ref", "Box", "Type", "Range", "Slice", "File"]
+
+def probeSizes : List Nat := [1, 4, 8, 12, 16, 40]
+
+def isLive (st : Store) (id : Nat) : Bool := (st.get id).isSome
+
+def nameOk (s : String) : Bool :=
+  !s.isEmpty && s.length ≤ 40 && s.all fun c => c.isAlphanum || c = '_'
+
+def afterColon (s : String) (n : Nat) : String := (s.drop n).toString
+
+def parseSpec (st : Store) (s : String) : Option Scalar :=
+  if s.startsWith "i:" then (parseI64 (afterColon s 2)).map .int
+  else if s.startsWith "f:" then
+    let h := afterColon s 2
+    if h.length ≠ 16 then none else
+    (parseHex h).map fun bs => .float (bs.foldl (fun acc b => (acc <<< 8) ||| b.toUInt64) 0)
+  else if s.startsWith "s:" then
+    match parseHex (afterColon s 2) with
+    | some bs => if bs.any (· == 0) then none else some (.str bs)
+    | none => none
+  else if s.startsWith "t:" then
+    let n := afterColon s 2
+    if nameOk n && builtinNames.contains n then some (.typ n.toUTF8.toList) else none
+  else if s.startsWith "u:" then
+    let n := afterColon s 2
+    if nameOk n then some (.typ n.toUTF8.toList) else none
+  else if s.startsWith "p" && s.length ≥ 3 && (s.toList.getD 2 ' ') = ':' then
+    let kc := s.toList.getD 1 ' '
+    if '0' ≤ kc ∧ kc.toNat < '0'.toNat + probeSizes.length then
+      let k := kc.toNat - '0'.toNat
+      match parseHex (afterColon s 3) with
+      | some bs => if bs.length = probeSizes.getD k 0 then some (.raw k bs) else none
+      | none => none
+    else none
+  else if s.startsWith "r:" || s.startsWith "b:" then
+    match parseId (afterColon s 2) with
+    | some t => if isLive st t then some (.ptr (s.startsWith "b:") t) else none
+    | none => none
+  else none
+
+def tyCode : Ty → String
+  | .int => "I" | .float => "F" | .str => "S" | .typ => "T" | .ref => "r" | .box => "b" | .raw k => toString k
+
+def parseTy (s : String) (allowFloat : Bool) : Option Ty :=
+  if s = "I" then some .int else if s = "S" then some .str else if s = "F" && allowFloat then some .float else none
+
+def dumpScalar : Scalar → String
+  | .int v => s!"i:{v.toInt}"
+  | .float b => s!"f:{hex16 b}"
+  | .str b => s!"s:{hexBytes b}"
+  | .typ n => s!"t:{String.ofList (n.map fun b => Char.ofNat b.toNat)}"
+  | .ptr false t => s!"r:{t}"
+  | .ptr true t => s!"b:{t}"
+  | .raw k b => s!"p{k}:{hexBytes b}"
+
+def dumpSlots (t : Table) : String :=
+  let es := (List.range t.slots.size).filterMap fun i =>
+    match t.slots.getD i none with
+    | some s => some s!"{i}:{s.stored}:{dumpScalar s.k}={dumpScalar s.v}"
+    | none => none
+  ",".intercalate es
+
+def dumpVal (st : Store) : Val → String
+  | .sc s => dumpScalar s
+  | .seq .array ety items => s!"A:{tyCode ety}[{",".intercalate (items.map dumpScalar)}]"
+  | .seq .list ety items => s!"L:{tyCode ety}[{",".intercalate (items.map dumpScalar)}]"
+  | .tuple ids => s!"U[{",".intercalate (ids.map fun i => match st.scalar i with | some s => dumpScalar s | none => "?")}]"
+  | .table kt vt t => s!"T:{tyCode kt}{tyCode vt}\{{t.nslots}|{dumpSlots t}}"
+  | .tree kt vt es => s!"R:{tyCode kt}{tyCode vt}\{{",".intercalate (es.map fun e => s!"{dumpScalar e.1}={dumpScalar e.2}")}}"
+
+/-- model addresses: injective in the object id -/
+def addr (t : Nat) : Bytes :=
+  (List.range 8).map fun i => UInt8.ofNat (((t + 1) * 48 / 256 ^ i) % 256)
+
+def isPtr : Scalar → Bool
+  | .ptr _ _ => true
+  | _ => false
+
+def hasPtr (st : Store) : Val → Bool
+  | .sc s => isPtr s
+  | .seq _ _ items => items.any isPtr
+  | .tuple ids => ids.any fun i => match st.scalar i with | some s => isPtr s | none => false
+  | .table _ _ t => t.entries.any fun e => isPtr e.1
+  | .tree _ _ es => es.any fun e => isPtr e.1
+
+def hashStr (st : Store) (v : Val) : String :=
+  if hasPtr st v then "@" else hex16 (valHash addr st v)
+
+def excName : Option Exc → String
+  | none => "ok"
+  | some e => e.name
+
+def observe (st : Store) (op : String) (id : Nat) (e : Option Exc) : IO Unit :=
+  match st.get id with
+  | some o => IO.println s!"O {op} {id} {excName e} v={dumpVal st o.val} h={hashStr st o.val}"
+  | none => IO.println "O bad-op"
+
+def parseCls (s : String) (allowE : Bool) : Option Cls :=
+  if s = "S" then some .stack else if s = "H" then some .heap else if s = "E" && allowE then some .embedded else none
+
+def bind (st : Store) (id : Nat) (o : Obj) : Store :=
+  let st := if st.size ≤ id then st ++ Array.replicate (id + 1 - st.size) none else st
+  st.setIfInBounds id (some o)
+
+def setVal (st : Store) (id : Nat) (v : Val) : Store :=
+  match st.get id with
+  | some o => st.setIfInBounds id (some { o with val := v })
+  | none => st
+
+def isSeqVal : Val → Bool
+  | .seq _ _ _ => true | .tuple _ => true | _ => false
+def isMapVal : Val → Bool
+  | .table _ _ _ => true | .tree _ _ _ => true | _ => false
+def isScVal : Val → Bool
+  | .sc _ => true | _ => false
+
+/-- the rule of h_hash.c `cmp_allowed` -/
+def cmpAllowed (st : Store) (a b : Val) : Bool :=
+  match a, b with
+  | .sc x, .sc y => x.ty = y.ty
+  | _, _ =>
+    match seqItems st a, seqItems st b with
+    | some xs, some ys => (xs.zip ys).all fun p => p.1.ty = p.2.ty
+    | _, _ =>
+      match a, b with
+      | .table ka va _, .table kb vb _ => ka = kb && va = vb
+      | .table ka va _, .tree kb vb _ => ka = kb && va = vb
+      | .tree ka va _, .table kb vb _ => ka = kb && va = vb
+      | .tree ka va _, .tree kb vb _ => ka = kb && va = vb
+      | _, _ => false
+
+/-- the rule of h_hash.c `assign_allowed` -/
+def assignAllowed (y x : Val) : Bool :=
+  match y, x with
+  | .sc a, .sc b => a.ty = b.ty
+  | .seq _ _ _, .seq _ _ _ => true
+  | .tuple _, .tuple _ => true
+  | _, _ => isMapVal y && isMapVal x
+
+def sign (c : Int) : Int := if c < 0 then -1 else if c > 0 then 1 else 0
+
+/-- normalise an index the way the C code does; `extra` = 1 for Array_Push_At -/
+def normIdx (n : Nat) (i : Int) (extra : Nat) : Int := if i < 0 then (n : Int) + extra + i else i
+
+def insertAt (xs : List α) (i : Nat) (x : α) : List α := xs.take i ++ x :: xs.drop i
+def removeAt (xs : List α) (i : Nat) : List α := xs.take i ++ xs.drop (i + 1)
+
+/-- element of a tuple-typed rule: items that are scalar objects other than Ref/Box/Type -/
+def tupleItemOk (st : Store) (id : Nat) : Bool :=
+  match st.scalar id with
+  | some (.ptr _ _) => false
+  | some (.typ _) => false
+  | some _ => true
+  | none => false
+
+def remFirst (p : α → Bool) : List α → Option (List α)
+  | [] => none
+  | x :: xs => if p x then some xs else (remFirst p xs).map (x :: ·)
+
+structure Stats where
+  eqPairs : Nat := 0
+  eqZero : Nat := 0
+  copies : Nat := 0
+  swaps : Nat := 0
+  displaced : Nat := 0
+
+def tableDisplaced (t : Table) : Bool :=
+  (List.range t.slots.size).any fun i => match t.slots.getD i none with
+    | some s => probe t.nslots i s.stored != 0
+    | none => false
+
+def step (st : Store) (stats : Stats) (toks : List String) : IO (Store × Stats) := do
+  let bad : IO (Store × Stats) := do IO.println "O bad-op"; return (st, stats)
+  match toks with
+  | ["D"] =>
+    IO.println s!"O D len=0 h={hex16 (hashData [])}"; return (st, stats)
+  | ["D", h] =>
+    match parseHex h with
+    | some bs => IO.println s!"O D len={bs.length} h={hex16 (hashData bs)}"; return (st, stats)
+    | none => bad
+  | ["new", ids, cls, spec] =>
+    match parseId ids, parseCls cls true, parseSpec st spec with
+    | some id, some c, some s =>
+      if isLive st id then bad
+      else if c = .embedded && (isPtr s || s.ty = .typ) then bad
+      else
+        let st := bind st id ⟨c, .sc s⟩
+        observe st "new" id none; return (st, stats)
+    | _, _, _ => bad
+  | op :: ids :: cls :: ety :: specs =>
+    if op = "arr" || op = "lst" then
+      match parseId ids, parseCls cls false, parseTy ety true with
+      | some id, some c, some ty =>
+        if isLive st id then bad else
+        match specs.mapM (parseSpec st) with
+        | some items =>
+          if items.all (·.ty = ty) then
+            let st := bind st id ⟨c, .seq (if op = "arr" then .array else .list) ty items⟩
+            observe st op id none; return (st, stats)
+          else bad
+        | none => bad
+      | _, _, _ => bad
+    else if op = "tab" || op = "tre" then
+      match specs with
+      | [] => bad
+      | vtyS :: pairs =>
+        match parseId ids, parseCls cls false, parseTy ety false, parseTy vtyS true with
+        | some id, some c, some kt, some vt =>
+          if isLive st id || pairs.length % 2 ≠ 0 then bad else
+          match pairs.mapM (parseSpec st) with
+          | some ss =>
+            let rec mk : List Scalar → List (Scalar × Scalar)
+              | k :: v :: rest => (k, v) :: mk rest
+              | _ => []
+            let es := mk ss
+            if es.all (fun e => e.1.ty = kt && e.2.ty = vt) then
+              let v := if op = "tab" then Val.table kt vt (tableOfEntries addr es) else Val.tree kt vt (treeOfEntries addr es)
+              let st := bind st id ⟨c, v⟩
+              observe st op id none; return (st, stats)
+            else bad
+          | none => bad
+        | _, _, _, _ => bad
+    else if op = "tup" then
+      match parseId ids, parseCls cls false, (ety :: specs).mapM parseId with
+      | some id, some c, some items =>
+        if isLive st id || !items.all (tupleItemOk st) || !items.Nodup then bad
+        else
+          let st := bind st id ⟨c, .tuple items⟩
+          observe st op id none; return (st, stats)
+      | _, _, _ => bad
+    else bad
+  | [op, a, b] =>
+    if op = "tup" then
+      match parseId a, parseCls b false with
+      | some id, some c => if isLive st id then bad else
+        let st := bind st id ⟨c, .tuple []⟩
+        observe st op id none; return (st, stats)
+      | _, _ => bad
+    else if op = "put" then
+      match parseId a with
+      | some id =>
+        match st.get id, parseSpec st b with
+        | some ⟨c, .sc cur⟩, some s =>
+          if cur.ty ≠ s.ty then bad else
+          match assignVal addr st c (.sc cur) (.sc s) with
+          | .ok v => let st := setVal st id v; observe st op id none; return (st, stats)
+          | .error e => observe st op id (some e); return (st, stats)
+        | _, _ => bad
+      | none => bad
+    else if op = "push" then stepSeq st stats op a none b
+    else if op = "popat" then stepPop st stats op a (some b)
+    else if op = "rem" then stepRem st stats a b
+    else if op = "resize" then stepResize st stats op a (some b)
+    else if op = "concat" then
+      match parseId a, parseId b with
+      | some c, some d =>
+        if c = d then bad else
+        match st.get c, st.get d with
+        | some ⟨_, .seq k ety xs⟩, some ⟨_, .seq _ ety' ys⟩ =>
+          if ety ≠ ety' then bad else
+          let st := setVal st c (.seq k ety (xs ++ ys)); observe st op c none; return (st, stats)
+        | _, _ => bad
+      | _, _ => bad
+    else if op = "eq" then
+      match parseId a, parseId b with
+      | some x, some y =>
+        match st.get x, st.get y with
+        | some ox, some oy =>
+          if !cmpAllowed st ox.val oy.val then bad else
+          let c := valCmp addr st ox.val oy.val
+          let ha := hashStr st ox.val; let hb := hashStr st oy.val
+          let ptr := hasPtr st ox.val || hasPtr st oy.val
+          let stats := { stats with eqPairs := stats.eqPairs + 1, eqZero := stats.eqZero + (if c = some 0 then 1 else 0) }
+          match c with
+          | none => IO.println s!"O eq {x} {y} c=TypeError ha={ha} hb={hb}"; return (st, stats)
+          | some c =>
+            if ptr then
+              let same := valHash addr st ox.val = valHash addr st oy.val
+              IO.println s!"O eq {x} {y} c={if c = 0 then "0" else "ne"} ha={ha} hb={hb} hsame={if same then 1 else 0}"
+            else IO.println s!"O eq {x} {y} c={sign c} ha={ha} hb={hb}"
+            return (st, stats)
+        | _, _ => bad
+      | _, _ => bad
+    else if op = "heq" then
+      match parseId a, parseId b with
+      | some x, some y =>
+        match st.get x, st.get y with
+        | some ox, some oy =>
+          let same := valHash addr st ox.val = valHash addr st oy.val
+          IO.println s!"O heq {x} {y} ha={hashStr st ox.val} hb={hashStr st oy.val} same={if same then 1 else 0}"
+          return (st, { stats with eqPairs := stats.eqPairs + 1 })
+        | _, _ => bad
+      | _, _ => bad
+    else if op = "copy" || op = "assign" then
+      match parseId a, parseId b with
+      | some y, some x =>
+        if x = y then bad else
+        match st.get x with
+        | none => bad
+        | some ox =>
+          let target : Option (Cls × Val) :=
+            if op = "copy" then (if isLive st y then none else some (.heap, blankOf ox.val))
+            else match st.get y with
+              | some oy => if assignAllowed oy.val ox.val then some (oy.cls, oy.val) else none
+              | none => none
+          match target with
+          | none => bad
+          | some (cls, self) =>
+            let r := if op = "copy" then copyVal addr st ox.val else assignVal addr st cls self ox.val
+            match r, op with
+            | .error e, "copy" => IO.println s!"O copy {y} {x} {e.name}"; return (st, stats)
+            | _, _ =>
+              let (st, e) := match r with
+                | .ok v => (if op = "copy" then bind st y ⟨.heap, v⟩ else setVal st y v, none)
+                | .error e => (st, some e)
+              match st.get y with
+              | none => bad
+              | some oy =>
+                let cs :=
+                  if !cmpAllowed st oy.val ox.val then "-" else
+                  match valCmp addr st oy.val ox.val with
+                  | none => "TypeError"
+                  | some c => if hasPtr st ox.val then (if c = 0 then "0" else "ne") else toString (sign c)
+                IO.println s!"O {op} {y} {x} {excName e} v={dumpVal st oy.val} h={hashStr st oy.val} hx={hashStr st ox.val} c={cs}"
+                let disp := match oy.val with | .table _ _ t => tableDisplaced t | _ => false
+                return (st, { stats with copies := stats.copies + 1, displaced := stats.displaced + (if disp then 1 else 0) })
+      | _, _ => bad
+    else if op = "swap" then
+      match parseId a, parseId b with
+      | some x, some y =>
+        match st.get x, st.get y with
+        | some ox, some oy =>
+          let ok := match ox.val, oy.val with
+            | .sc s, .sc t => s.ty = t.ty && s.ty ≠ .typ
+            | .seq k _ _, .seq k' _ _ => k = k'
+            | .tuple _, .tuple _ => true
+            | .table _ _ _, .table _ _ _ => true
+            | .tree _ _ _, .tree _ _ _ => true
+            | _, _ => false
+          if !ok then bad else
+          let st := swapObjs st x y
+          match st.get x, st.get y with
+          | some nx, some ny =>
+            IO.println s!"O swap {x} {y} ok va={dumpVal st nx.val} ha={hashStr st nx.val} vb={dumpVal st ny.val} hb={hashStr st ny.val}"
+            return (st, { stats with swaps := stats.swaps + 1 })
+          | _, _ => bad
+        | _, _ => bad
+      | _, _ => bad
+    else bad
+  | [op, a] =>
+    if op = "H" then
+      match parseId a with
+      | some id => if isLive st id then do observe st op id none; return (st, stats) else bad
+      | none => bad
+    else if op = "pop" then stepPop st stats op a none
+    else if op = "clear" then stepResize st stats op a none
+    else bad
+  | _ => bad
+where
+  stepSeq (st : Store) (stats : Stats) (op c : String) (idx : Option String) (x : String) : IO (Store × Stats) := do
+    let bad : IO (Store × Stats) := do IO.println "O bad-op"; return (st, stats)
+    match parseId c with
+    | none => bad
+    | some cid =>
+      let idxv : Option (Option Int) := match idx with
+        | none => some none
+        | some s => (parseI64 s).map fun v => some v.toInt
+      match st.get cid, idxv with
+      | some ⟨cls, .seq kind ety items⟩, some iv =>
+        match parseSpec st x with
+        | some s =>
+          if s.ty ≠ ety then bad else
+          let n := items.length
+          match iv with
+          | none => let st := setVal st cid (.seq kind ety (items ++ [s])); observe st op cid none; return (st, stats)
+          | some i =>
+            if kind = .array then
+              let j := normIdx n i 1
+              if j < 0 || j > n then do observe st op cid (some .indexError); return (st, stats)
+              else let st := setVal st cid (.seq kind ety (insertAt items j.toNat s)); observe st op cid none; return (st, stats)
+            else
+              if i = 0 then let st := setVal st cid (.seq kind ety (s :: items)); observe st op cid none; return (st, stats)
+              else
+                let j := normIdx n i 0
+                if j < 0 || j ≥ n then do observe st op cid (some .indexError); return (st, stats)
+                else let st := setVal st cid (.seq kind ety (insertAt items j.toNat s)); observe st op cid none; return (st, stats)
+        | none => let _ := cls; bad
+      | some ⟨cls, .tuple ids⟩, some iv =>
+        match parseId x with
+        | some e =>
+          if !tupleItemOk st e || ids.contains e then bad else
+          let n := ids.length
+          match iv with
+          | none =>
+            if cls = .stack then do observe st op cid (some .valueError); return (st, stats)
+            else let st := setVal st cid (.tuple (ids ++ [e])); observe st op cid none; return (st, stats)
+          | some i =>
+            let j := normIdx n i 0
+            if j < 0 || j ≥ n then do observe st op cid (some .indexError); return (st, stats)
+            else if cls = .stack then do observe st op cid (some .valueError); return (st, stats)
+            else let st := setVal st cid (.tuple (insertAt ids j.toNat e)); observe st op cid none; return (st, stats)
+        | none => bad
+      | _, _ => bad
+  stepPop (st : Store) (stats : Stats) (op c : String) (idx : Option String) : IO (Store × Stats) := do
+    let bad : IO (Store × Stats) := do IO.println "O bad-op"; return (st, stats)
+    match parseId c with
+    | none => bad
+    | some cid =>
+      let idxv : Option (Option Int) := match idx with
+        | none => some none
+        | some s => (parseI64 s).map fun v => some v.toInt
+      match st.get cid, idxv with
+      | some ⟨cls, v⟩, some iv =>
+        let n := match v with | .seq _ _ items => items.length | .tuple ids => ids.length | _ => 0
+        if !isSeqVal v then bad else
+        let pos : Option Nat := match iv with
+          | none => if n = 0 then none else some (n - 1)
+          | some i => let j := normIdx n i 0; if j < 0 || j ≥ n then none else some j.toNat
+        match pos with
+        | none => observe st op cid (some .indexError); return (st, stats)
+        | some p =>
+          match v with
+          | .seq kind ety items => let st := setVal st cid (.seq kind ety (removeAt items p)); observe st op cid none; return (st, stats)
+          | .tuple ids =>
+            if cls = .stack then do observe st op cid (some .valueError); return (st, stats)
+            else let st := setVal st cid (.tuple (removeAt ids p)); observe st op cid none; return (st, stats)
+          | _ => bad
+      | _, _ => bad
+  stepRem (st : Store) (stats : Stats) (c x : String) : IO (Store × Stats) := do
+    let bad : IO (Store × Stats) := do IO.println "O bad-op"; return (st, stats)
+    match parseId c, parseSpec st x with
+    | some cid, some s =>
+      match st.get cid with
+      | some ⟨cls, v⟩ =>
+        match v with
+        | .sc _ => bad
+        | .seq kind ety items =>
+          if s.ty ≠ ety then bad else
+          match remFirst (fun e => keyEq addr e s) items with
+          | some items' => let st := setVal st cid (.seq kind ety items'); observe st "rem" cid none; return (st, stats)
+          | none => observe st "rem" cid (some .valueError); return (st, stats)
+        | .tuple ids =>
+          match ids.mapM st.scalar with
+          | none => bad
+          | some ss =>
+            if !ss.all (·.ty = s.ty) then bad else
+            -- Tuple_Rem: eq(item, t->items[i]) with the argument on the left
+            let found := (List.range ids.length).find? fun i => match ss[i]? with | some e => keyEq addr s e | none => false
+            match found with
+            | some i =>
+              if cls = .stack then do observe st "rem" cid (some .valueError); return (st, stats)
+              else let st := setVal st cid (.tuple (removeAt ids i)); observe st "rem" cid none; return (st, stats)
+            | none => observe st "rem" cid (some .valueError); return (st, stats)
+        | .table kt vt t =>
+          if s.ty ≠ kt then bad else
+          match tableRem addr t s with
+          | some t' => let st := setVal st cid (.table kt vt t'); observe st "rem" cid none; return (st, stats)
+          | none => observe st "rem" cid (some .keyError); return (st, stats)
+        | .tree kt vt es =>
+          if s.ty ≠ kt then bad else
+          match treeRem addr es s with
+          | some es' => let st := setVal st cid (.tree kt vt es'); observe st "rem" cid none; return (st, stats)
+          | none => observe st "rem" cid (some .keyError); return (st, stats)
+      | none => bad
+    | _, _ => bad
+  stepResize (st : Store) (stats : Stats) (op c : String) (ns : Option String) : IO (Store × Stats) := do
+    let bad : IO (Store × Stats) := do IO.println "O bad-op"; return (st, stats)
+    let nv : Option Nat := match ns with
+      | none => some 0
+      | some s => match parseI64 s with
+        | some v => if 0 ≤ v.toInt ∧ v.toInt ≤ 100000 then some v.toInt.toNat else none
+        | none => none
+    match parseId c, nv with
+    | some cid, some n =>
+      match st.get cid with
+      | some ⟨cls, v⟩ =>
+        match v with
+        | .sc _ => bad
+        | .seq .array ety items =>
+          let st := setVal st cid (.seq .array ety (if n = 0 then [] else items.take n)); observe st op cid none; return (st, stats)
+        | .seq .list ety items =>
+          if ns.isSome && n > items.length then bad else
+          let st := setVal st cid (.seq .list ety (if n = 0 then [] else items.take n)); observe st op cid none; return (st, stats)
+        | .tuple ids =>
+          if cls = .stack then do observe st op cid (some .valueError); return (st, stats)
+          else if n < ids.length then let st := setVal st cid (.tuple (ids.take n)); observe st op cid none; return (st, stats)
+          else observe st op cid (some .formatError); return (st, stats)
+        | .table kt vt t =>
+          if n = 0 then let st := setVal st cid (.table kt vt Table.empty); observe st op cid none; return (st, stats)
+          else if n < t.nitems then do observe st op cid (some .formatError); return (st, stats)
+          else let st := setVal st cid (.table kt vt (rehash addr t (idealSize n))); observe st op cid none; return (st, stats)
+        | .tree kt vt _ =>
+          if n = 0 then let st := setVal st cid (.tree kt vt []); observe st op cid none; return (st, stats)
+          else observe st op cid (some .formatError); return (st, stats)
+      | none => bad
+    | _, _ => bad
+
+end HashDrv
+
+/-- `set <c> <idx|key> <val>` -/
+def stepSet (st : Store) (c k v : String) : IO Store := do
+  let bad : IO Store := do IO.println "O bad-op"; return st
+  match HashDrv.parseId c with
+  | none => bad
+  | some cid =>
+    match st.get cid with
+    | some ⟨_, .seq kind ety items⟩ =>
+      match HashDrv.parseI64 k, HashDrv.parseSpec st v with
+      | some i, some s =>
+        if s.ty ≠ ety then bad else
+        let j := HashDrv.normIdx items.length i.toInt 0
+        if j < 0 || j ≥ items.length then do HashDrv.observe st "set" cid (some .indexError); return st
+        else
+          let st := HashDrv.setVal st cid (.seq kind ety (items.set j.toNat s)); HashDrv.observe st "set" cid none; return st
+      | _, _ => bad
+    | some ⟨_, .table kt vt t⟩ =>
+      match HashDrv.parseSpec st k, HashDrv.parseSpec st v with
+      | some ks, some vs =>
+        if ks.ty ≠ kt || vs.ty ≠ vt then bad else
+        let st := HashDrv.setVal st cid (.table kt vt (tableSet HashDrv.addr t ks vs)); HashDrv.observe st "set" cid none; return st
+      | _, _ => bad
+    | some ⟨_, .tree kt vt es⟩ =>
+      match HashDrv.parseSpec st k, HashDrv.parseSpec st v with
+      | some ks, some vs =>
+        if ks.ty ≠ kt || vs.ty ≠ vt then bad else
+        let st := HashDrv.setVal st cid (.tree kt vt (treeSet HashDrv.addr es ks vs)); HashDrv.observe st "set" cid none; return st
+      | _, _ => bad
+    | _ => bad
+
+def main (args : List String) : IO Unit := do
+  let lines ← Driver.inputLines args
+  let mut st : Store := #[]
+  let mut stats : HashDrv.Stats := {}
+  for l in lines do
+    if Driver.isSkippable l then continue
+    let toks := Driver.words l
+    match toks with
+    | ["set", c, k, v] => st ← stepSet st c k v
+    | ["pushat", c, i, x] =>
+      let (s, t) ← HashDrv.step.stepSeq st stats "pushat" c (some i) x
+      st := s; stats := t
+    | _ =>
+      let (s, t) ← HashDrv.step st stats toks
+      st := s; stats := t
+  IO.println s!"S eq_pairs={stats.eqPairs} eq_zero={stats.eqZero} copies={stats.copies} swaps={stats.swaps} displaced_tables={stats.displaced}"
